@@ -81,10 +81,13 @@ Definition C11q_spec (i : C11q_in) (o : C11q_out) : bool :=
 Definition bpm_as_timed (b : bpm_event) : timed := mkT (b_tick b) (b_ts b) (b_idx b).
 Definition track_timed (tr : itrack) : list timed :=
   map n_at (it_notes tr) ++ map sp_at (it_sps tr) ++ map te_at (it_tevs tr).
-Definition all_timed (ch : chart) : list timed :=
-  map bpm_as_timed (evs (st_bpm (c_sync ch))) ++ map ts_at (st_ts (c_sync ch))
+(** every timed point except the tempo events themselves *)
+Definition all_timed_nb (ch : chart) : list timed :=
+  map ts_at (st_ts (c_sync ch))
   ++ map ge_at (g_text (c_gev ch)) ++ map ge_at (g_section (c_gev ch)) ++ map ge_at (g_lyric (c_gev ch))
   ++ flat_map track_timed (all_tracks ch).
+Definition all_timed (ch : chart) : list timed :=
+  map bpm_as_timed (evs (st_bpm (c_sync ch))) ++ all_timed_nb ch.
 Definition note_ends (ch : chart) : list (result Z * Z) :=
   flat_map (fun tr => map (fun e => (let* l := longest_sustain (n_sustain e) in Ok (n_tick e + l), n_end_ts e))
                           (it_notes tr)) (all_tracks ch).
@@ -289,3 +292,178 @@ Definition C12c_spec (wf : bool) (o : parse_out) : bool :=
                (if fst a =? fst b then snd a =? snd b else true)
                && (if fst a <=? fst b then snd a <=? snd b else true)) pts) pts
     && forallb (fun tr => forallb (fun e => t_ts (n_at e) <=? n_end_ts e) (it_notes tr)) (all_tracks ch)).
+
+(** *** C15 *)
+(** No timed point (incl. note ends) of a returned chart is governed by a tempo of zero. *)
+Definition governed_positive (B : bpm_events) (t : Z) : bool :=
+  match nth_Z (evs B) (gov_ticks (map b_tick (evs B)) t) with
+  | Some p => negb (f_le (b_bpm p) fzero)
+  | None => false
+  end.
+Definition C15c_spec (aux : option bool) (o : parse_out) : bool :=
+  match o with
+  | Err e => match aux with Some false => false | _ => errkind_eqb e EValue end
+  | Ok (ch, _) =>
+      match aux with Some true => false | _ => true end &&
+      let B := st_bpm (c_sync ch) in
+      (0 <? resolution B) &&
+      match evs B with e0 :: _ => b_tick e0 =? 0 | [] => false end &&
+      match st_ts (c_sync ch) with t0 :: _ => t_tick (ts_at t0) =? 0 | [] => false end &&
+      forallb (fun e => governed_positive B (t_tick e)) (all_timed_nb ch) &&
+      forallb (fun p => match fst p with Ok et => governed_positive B et | Err _ => false end) (note_ends ch)
+  end.
+(** Queries: a negative tick, or a tick governed by a zero tempo, raises ValueError whatever the hint. *)
+Definition C15q_spec (c : cfg) (i : C11q_in) (o : C11q_out) : bool :=
+  let '((res, tmraw), qs) := i in
+  let tm := tm_of c tmraw in
+  match o with
+  | Err _ => true
+  | Ok outs =>
+      same_len outs qs &&
+      forallb (fun qr =>
+                 let '((t, h), r) := qr in
+                 let zero := match nth_Z tm (gov_ticks (map fst tm) t) with Some p => snd p =? 0 | None => true end in
+                 if (t <? 0) || zero then qres_eqb r (Err EValue) else true)
+              (combine qs outs)
+  end.
+
+(** *** C16 *)
+From CP Require Import Spec.C16.
+Definition nps_call := (str * str * bound * bound)%type.
+Definition C16_in := (parse_in * list nps_call)%type.
+Definition C16_out := result (chart * list (result f64)).
+Definition C16_model (c : cfg) (i : C16_in) : C16_out :=
+  let* (ch, _) := from_file c (fst (fst i)) (snd (fst i)) in
+  Ok (ch, map (fun k => let '(a, b, s, e) := k in notes_per_second ch a b s e) (snd i)).
+Definition C16_verdict (c : cfg) (i : C16_in) (o : C16_out) : N :=
+  verdict (result_eqb (fun x y => chart_eqb (fst x) (fst y) && list_eqb float_result_eqb (snd x) (snd y)))
+          (C16_model c i) o.
+(** Judged on the implementation's OWN chart: each call's result against [spec_nps]. *)
+Definition C16_spec (i : C16_in) (o : C16_out) : bool :=
+  match o with
+  | Err _ => false
+  | Ok (ch, outs) =>
+      same_len outs (snd i) &&
+      forallb (fun kr => let '((a, b, s, e), r) := kr in
+                         if consistent s e then Spec.C16.spec_b ch a b s e r else true)
+              (combine (snd i) outs)
+  end.
+
+(** *** C10 *)
+From CP Require Import Spec.C10.
+Definition doc_fields : list meta_field :=
+  map (fun d => let '(n, p, k, r, dv) := d in
+                {| mf_name := of_string n; mf_pascal := of_string p;
+                   mf_re := ref_meta (of_string p) k; mf_kind := k; mf_required := r; mf_default := dv |})
+      doc_table.
+(** The documented configuration: reference recognisers, documented fields and defaults; only the
+    character tables are taken from the running interpreter. *)
+Definition doc_cfg (c : cfg) : cfg :=
+  let r := ref_cfg c in
+  {| tbl := tbl r; re_note := re_note r; re_sp := re_sp r; re_tev := re_tev r; re_bpm := re_bpm r;
+     re_ts := re_ts r; re_anchor := re_anchor r; re_text := re_text r; re_section := re_section r;
+     re_lyric := re_lyric r; re_header := re_header r; meta_fields := doc_fields;
+     order_instr := order_instr r; order_sync := order_sync r; order_events := order_events r;
+     instr_values := instr_values r; diff_values := diff_values r; nti_values := nti_values r;
+     player2_values := player2_values r; tag_song := tag_song r; tag_sync := tag_sync r;
+     tag_events := tag_events r; required_tags := required_tags r; eighth_triplet := eighth_triplet r;
+     default_lower := default_lower r; sp_literal := sp_literal r; autoinsert_tracks := autoinsert_tracks r |}.
+Definition C10_in := list str.
+Definition C10_out := result metadata.
+Definition C10_verdict (c : cfg) (i : C10_in) (o : C10_out) : N :=
+  verdict (result_eqb metadata_eqb) (meta_parse c i) o.
+Definition C10_spec (c : cfg) (i : C10_in) (o : C10_out) : bool :=
+  result_eqb metadata_eqb (meta_parse (doc_cfg c) i) o.
+
+(** *** C06 / C13: relations between two parses of the implementation *)
+From CP Require Import Spec.ChartSpec.
+Fixpoint remove1 {A} (eqb : A -> A -> bool) (x : A) (l : list A) : option (list A) :=
+  match l with
+  | [] => None
+  | y :: l' => if eqb x y then Some l' else match remove1 eqb x l' with Some r => Some (y :: r) | None => None end
+  end.
+Fixpoint perm_b {A} (eqb : A -> A -> bool) (a b : list A) : bool :=
+  match a with
+  | [] => match b with [] => true | _ => false end
+  | x :: a' => match remove1 eqb x b with Some b' => perm_b eqb a' b' | None => false end
+  end.
+Definition track_keys (m : list (str * list (str * itrack))) : list (str * str) :=
+  flat_map (fun p => map (fun q => (fst p, fst q)) (snd p)) m.
+Definition opt_track_eqb := option_eqb itrack_eqb.
+Definition tracks_equiv_b (a b : list (str * list (str * itrack))) : bool :=
+  forallb (fun k => opt_track_eqb (lookup_tracks a (fst k) (snd k)) (lookup_tracks b (fst k) (snd k)))
+          (track_keys a ++ track_keys b)
+  && perm_b str_eqb (map fst a) (map fst b)
+  && forallb (fun p => negb (Nat.eqb (length (snd p)) 0)) a.
+Definition chart_equiv_b (a b : chart) : bool :=
+  metadata_eqb (c_meta a) (c_meta b) && sync_eqb (c_sync a) (c_sync b) && gev_eqb (c_gev a) (c_gev b)
+  && tracks_equiv_b (c_tracks a) (c_tracks b).
+
+(** C06.  aux = (the implementation's parse of the canonical rendering (LF, no BOM, canonical section
+    order, no unknown sections), tags of the unknown sections added, expected (instrument, difficulty)
+    keys, was a required section removed?). *)
+Definition C06_aux := (parse_out * list str * list (str * str) * bool)%type.
+Definition pair_eqb2 (a b : str * str) : bool := str_eqb (fst a) (fst b) && str_eqb (snd a) (snd b).
+Definition C06_spec (aux : C06_aux) (o : parse_out) : bool :=
+  let '(base, unknown, keys, removed) := aux in
+  if removed then match o with Err e => errkind_eqb e EValue | Ok _ => false end
+  else
+    match base, o with
+    | Ok (ch0, logs0), Ok (ch, logs) =>
+        chart_equiv_b ch ch0
+        && perm_b log_eqb logs (logs0 ++ map LUnhandled unknown)
+        && perm_b pair_eqb2 (track_keys (c_tracks ch)) keys
+        && forallb (fun p => forallb (fun q => str_eqb (it_instr (snd q)) (fst p) && str_eqb (it_diff (snd q)) (fst q))
+                                     (snd p)) (c_tracks ch)
+    | Err _, Err _ => true
+    | _, _ => false
+    end.
+
+(** C13.  aux = (the implementation's unrestricted parse of the ORIGINAL text, the selection, the key
+    of the one section whose body was replaced (if any)). *)
+Definition C13_aux := (parse_out * option (list (str * str)) * option (str * str))%type.
+Definition C13_spec (aux : C13_aux) (o : parse_out) : bool :=
+  let '(base, sel, changed) := aux in
+  match base, o with
+  | Ok (ch0, _), Ok (ch, _) =>
+      metadata_eqb (c_meta ch) (c_meta ch0) && sync_eqb (c_sync ch) (c_sync ch0) && gev_eqb (c_gev ch) (c_gev ch0)
+      && forallb (fun k =>
+                    match changed with
+                    | Some ck => pair_eqb2 k ck
+                    | None => false
+                    end
+                    || opt_track_eqb (lookup_tracks (c_tracks ch) (fst k) (snd k))
+                                     (if wanted sel k then lookup_tracks (c_tracks ch0) (fst k) (snd k) else None))
+                 (track_keys (c_tracks ch) ++ track_keys (c_tracks ch0))
+      && forallb (fun p => negb (Nat.eqb (length (snd p)) 0)) (c_tracks ch)
+  | Ok _, Err _ =>
+      (* a selection alone never makes a parse fail; a replaced body may (when it is selected) *)
+      match changed with Some ck => wanted sel ck | None => false end
+  | Err _, _ => true
+  end.
+
+(** *** C20 *)
+From CP Require Import Model.Imports.
+Definition C20_obs := (bool * list (modname * list (name * String.string)) * list (modname * list name))%type.
+Definition C20_verdict_N (P : progs) (seq : list modname) (o : C20_obs) : N :=
+  let '(ok, obs, names) := o in if C20_verdict P seq ok obs names then 0%N else 1%N.
+(** Judged on the implementation alone: the imports succeed and every loaded module shows exactly the
+    names, bound to the same objects, that it shows when the same set of modules is imported in sorted
+    order in another fresh interpreter ([base]). *)
+Definition lookup_s {A} (k : String.string) (l : list (String.string * A)) : option A :=
+  match find (fun p => String.eqb k (fst p)) l with Some p => Some (snd p) | None => None end.
+Definition name_lab_eqb (a b : name * String.string) : bool := String.eqb (fst a) (fst b) && String.eqb (snd a) (snd b).
+Definition C20_spec (base : list (modname * list (name * String.string))) (seq : list modname) (o : C20_obs) : bool :=
+  let '(ok, obs, names) := o in
+  ok && forallb (fun m => match lookup_s m obs with Some _ => true | None => false end) seq
+  && Nat.eqb (length obs) (length base)
+  && forallb (fun p => match lookup_s (fst p) base with
+                       | Some ns => perm_b name_lab_eqb (snd p) ns
+                       | None => false end) obs.
+
+(** C06 input: read by path (utf-8-sig + universal newlines, modelled by [from_filepath]) or from an
+    already decoded text. *)
+Definition C06_in := (bool * str * option (list (str * str)))%type.
+Definition C06_verdict (c : cfg) (i : C06_in) (o : parse_out) : N :=
+  let '(by_path, text, want) := i in
+  verdict parse_eqb (if by_path then from_filepath c text want else from_file c text want) o.
